@@ -7,6 +7,7 @@ package checks
 // and C11 (bidder funds), and the awaiting-settlement terms of C01.
 
 import (
+	"strings"
 	"fmt"
 	"math/big"
 	"sort"
@@ -391,6 +392,11 @@ func (m *vMachine) applyBid(i int, op vOp) {
 		bidCoin = sdk.NewCoin(collDen, mustInt(op.A))
 	}
 	_, derr := c.Deliver(auctypes.NewMsgPlaceMarketBid(from.String(), id, bidCoin))
+	if derr != nil && m.prop == "C10" && strings.HasPrefix(derr.Error(), "panic in handler") {
+		// the handler gave up half way: a bid that would close the auction can then never be placed, and the auction
+		// never ends and distributes what it holds
+		m.fail("C10.bid-is-settled-or-refused-cleanly", "initiator:"+lv.InitiatorType, "step %d: bid of %s on auction %d by user %d: %v", i, op.A, id, op.U, derr)
+	}
 	if derr != nil {
 		if debugErrs {
 			e := derr.Error()
